@@ -605,7 +605,11 @@ class TorrentFileHybrid(MetaFile, ProgMixin):
         self.pieces = []
         self.files = []
         size, file_list = utils.filelist_total(self.path)
-        self.kws = {"progress": self.progress, "progress_bar": None}
+        self.kws = {
+            "progress": self.progress,
+            "progress_bar": None,
+            "padding": not os.path.isfile(self.path),
+        }
         self.total = len(file_list)
 
         if self.progress == 0:
@@ -712,6 +716,7 @@ class TorrentAssembler(MetaFile, ProgMixin):
             "progress": self.progress,
             "progress_bar": None,
             "hybrid": self.hybrid,
+            "padding": not os.path.isfile(self.path),
         }
         self.total = len(file_list)
 
